@@ -49,7 +49,7 @@ class Solo:
 
     def deliver(self, mode='Q'):
         d = self.inn
-        if self.conn.flavour == 'tcp':
+        if self.conn.stream:
             if d.pending and d.sink_alive():
                 d.deliver_bytes(len(d.pending))
             else:
